@@ -1,4 +1,5 @@
 import GdslModel.Lemmas.Scc
+import GdslModel.Lemmas.Extra
 /-!
 # C11 — scc() is the mutual-reachability partition
 `scc adj radj π fuel` is `Graph::scc` (after the repair of F9) for a container whose hash map
@@ -46,5 +47,14 @@ theorem Scc.fuel_enough (adj radj : K → List (K × E)) (π : List K) (fuel : N
     (hc : Closed adj π) (hrc : Closed radj π) (hf : π.length < fuel) :
     (scc adj radj π fuel).isSome = true :=
   Scc.fuel_enough' adj radj π fuel hc hrc hf
+
+/-- on a graph built by a history, `scc()` never runs out of fuel for a container `π` that holds all
+    keys the history mentions, with any fuel above its size (`opKeys`: Lemmas/Extra.lean, see Props/C04.lean) -/
+theorem Scc.history_fuel (ops : List (Op K E)) (π : List K) (fuel : Nat)
+    (hk : ∀ k ∈ opKeys ops, k ∈ π) (hf : π.length < fuel) :
+    (scc (outAdj (Di.run ops)) (inAdj (Di.run ops)) π fuel).isSome = true := by
+  have hc := history_closed ops (fun _ _ _ => true) π hk
+  rw [accAdj_true, accAdj_true] at hc
+  exact Scc.fuel_enough _ _ π fuel hc.1 hc.2.1 hf
 
 end G
